@@ -409,7 +409,7 @@ def tv_load(run, stage, n, pid, seed_off=0):
     disagreements (laziness of reads, order of section events, error label) are DRIFT."""
     import os, re
     batch = os.path.join(run.scratch, stage.replace(":", "_") + ".ndjson")
-    s = run.vh(["drive-load", "--n", str(n), "--seed", str(run.seed * 10 + seed_off), "--out", batch], stage + ":drive")
+    s = run.vh(["drive-load", "--n", str(n), "--seed", str(run.seed * 10 + seed_off), "--corpus", os.path.join(vlib.VERIF, "corpus"), "--out", batch], stage + ":drive")
     run.traces -= s.get("judged", 0)
     r = run.tlc("Trace_Load", cfg(invariants=("Tally",)), files={"loadruns.ndjson": "@" + batch}, label=stage + ":tlc", timeout=1800)
     if not r["ok"]:
@@ -712,6 +712,10 @@ def c14(run):
                 "(magic, version, name, code, typed constants, positions, line table, canonical varints, nothing trailing); eight programs (some far larger than the 4096-byte buffers) dumped and loaded at the same time give the files each gives alone. MC: the format functions (shared with C09). "
                 "Non-trivial = every file / sequence of >= 2 instructions / every dump.")
     mc_format(run)
+    mc_load(run)
+    # recorded loads of real dumps folded through the loader machine: what the real loader takes out of a file, section by section,
+    # is what the documented layout says is there (shape load:parts-mismatch / load:verdict-mismatch on whole dumps)
+    tv_load(run, "C14:loader", 30 if run.quick else 400, "C14", seed_off=5)
     run.vh(["corpus-check", "--dir", os.path.join(vlib.VERIF, "corpus")], "C14:corpus")
     c = cfg(constants=dict(StackSize=1024, BlockStackSize=16, MaxInstr=3 if run.quick else 4), invariants=("Emit",))
     run.gen_replay("Gen_ISA", c, ["replay-isa"], "C14:isa")
